@@ -310,6 +310,30 @@ impl Sim {
         self.stats.probe("allowed_versions_changed_at_run_time");
     }
 
+    /// The sub-parsers are public fields with a public `Default`: assigning a fresh one is how a
+    /// caller forgets the templates of one protocol.
+    fn reset_caches(&mut self, p: usize, v9: bool, ipfix: bool) {
+        use netflow_parser::variable_versions::{ipfix::IPFixParser, v9::V9Parser};
+        netflow_parser::verif_hooks::set_hash_seed(self.cfgs[p].hash_seed.rotate_left(7) ^ self.stats.deliveries);
+        if v9 {
+            self.parsers[p].v9_parser = V9Parser::default();
+            if p < self.twins.len() {
+                self.twins[p].v9_parser = V9Parser::default();
+            }
+            self.models[p].v9.clear();
+            self.models[p].tainted.retain(|t| t.0 != Proto::V9);
+        }
+        if ipfix {
+            self.parsers[p].ipfix_parser = IPFixParser::default();
+            if p < self.twins.len() {
+                self.twins[p].ipfix_parser = IPFixParser::default();
+            }
+            self.models[p].ipfix.clear();
+            self.models[p].tainted.retain(|t| t.0 != Proto::Ipfix);
+        }
+        self.stats.probe("caches_reset_at_run_time");
+    }
+
     fn restart(&mut self) {
         for i in 0..self.parsers.len() {
             self.parsers[i] = make_parser(&self.cfgs[i]);
@@ -371,6 +395,16 @@ pub fn run_trace(trace: &Trace, prop: &str, mut heartbeat: Option<Heartbeat>) ->
                 sim.restart();
                 dg.str("restart");
                 let tg = 7u64;
+                sim.stats.trigrams.insert(prev2.0 * 1_000_003 + prev2.1 * 1009 + tg);
+                prev2 = (prev2.1, tg);
+            }
+            Ev::ResetCaches { p, v9, ipfix, .. } => {
+                if *p >= sim.parsers.len() {
+                    continue;
+                }
+                sim.reset_caches(*p, *v9, *ipfix);
+                dg.str("reset-caches");
+                let tg = 5u64;
                 sim.stats.trigrams.insert(prev2.0 * 1_000_003 + prev2.1 * 1009 + tg);
                 prev2 = (prev2.1, tg);
             }
